@@ -42,12 +42,14 @@ structure TypeRec where
   parent : Option Ent       -- what its `extends` slot holds after resolution (the parent type)
   own : Table               -- its own specific bindings (deferred ones included): name -> binding
   gens : List (Nat × Str)   -- the specifics of its own generic bindings: (slot id, name)
+  privs : List Ent          -- those of its own bindings that are PRIVATE
   deriving Repr
 
 /-- what `FortranType.correlate` leaves behind for the types that extend this one -/
 structure TState where
   table : Table             -- `boundprocs` by name: own bindings over the inherited ones
   cells : List (Nat × Str)  -- the list cells of all generic bindings in `boundprocs` (own and inherited copies)
+  privs : List Ent          -- the PRIVATE bindings among `boundprocs`
   deriving Repr
 
 abbrev TStore := List (Ent × TState)
@@ -77,6 +79,17 @@ def stateCells : Option TState → List (Nat × Str)
   | some s => s.cells
   | none => []
 
+def statePrivs : Option TState → List Ent
+  | some s => s.privs
+  | none => []
+
+/-- what an extension takes over of its parent's `boundprocs` (`for bp in self.extends.boundprocs`):
+    with `dropPrivate` (the code as found: `if bp.permission == "private": continue`) the PRIVATE
+    bindings are left out - of the dict `boundprocs` stands for, so that a binding they override does
+    not reappear; a table without PRIVATE bindings is taken as it is -/
+def inheritTable (dropPrivate : Bool) (privs : List Ent) (tb : Table) : Table :=
+  if dropPrivate && !privs.isEmpty then (dictItems tb).filter (fun ke => !(privs.contains ke.2)) else tb
+
 /-- the writes `proc.correlate` of the generic bindings performs: every cell whose name is a
     binding of the type receives that binding (`with suppress(KeyError)`) -/
 def cellWrites (tab : Table) : List (Nat × Str) → Cells
@@ -90,7 +103,16 @@ def stepType (shared : Bool) (st : TStore) (cells : Cells) (r : TypeRec) : TStor
   let ps := parentState st r
   let tab := r.own ++ stateTable ps
   let mine := if shared then r.gens ++ stateCells ps else r.gens
-  ((r.ent, ⟨tab, r.gens ++ stateCells ps⟩) :: st, cellWrites tab mine ++ cells)
+  ((r.ent, ⟨tab, r.gens ++ stateCells ps, r.privs ++ statePrivs ps⟩) :: st, cellWrites tab mine ++ cells)
+
+/-- `FortranType.correlate` with the treatment of PRIVATE bindings as a switch: `dropPrivate = true` is
+    the code as found, `false` inherits every binding (fixes/C07-inherit-private-bindings.diff) and is
+    `stepType` -/
+def stepTypeD (dropPrivate shared : Bool) (st : TStore) (cells : Cells) (r : TypeRec) : TStore × Cells :=
+  let ps := parentState st r
+  let tab := r.own ++ inheritTable dropPrivate (statePrivs ps) (stateTable ps)
+  let mine := if shared then r.gens ++ stateCells ps else r.gens
+  ((r.ent, ⟨tab, r.gens ++ stateCells ps, r.privs ++ statePrivs ps⟩) :: st, cellWrites tab mine ++ cells)
 
 /-- all types in the order of their correlation -/
 def runTypes (shared : Bool) : TStore → Cells → List TypeRec → Cells
@@ -101,6 +123,15 @@ def runTypes (shared : Bool) : TStore → Cells → List TypeRec → Cells
 /-- final content of the cells of the generic bindings each type declares (`none` = still the name) -/
 def genericRes (shared : Bool) (rs : List TypeRec) : List (Nat × Option Ent) :=
   rs.flatMap fun r => r.gens.map fun c => (c.1, cellGet (runTypes shared [] [] rs) c.1)
+
+def runTypesD (dropPrivate shared : Bool) : TStore → Cells → List TypeRec → Cells
+  | _, cells, [] => cells
+  | st, cells, r :: rest =>
+    runTypesD dropPrivate shared (stepTypeD dropPrivate shared st cells r).1
+      (stepTypeD dropPrivate shared st cells r).2 rest
+
+def genericResD (dropPrivate shared : Bool) (rs : List TypeRec) : List (Nat × Option Ent) :=
+  rs.flatMap fun r => r.gens.map fun c => (c.1, cellGet (runTypesD dropPrivate shared [] [] rs) c.1)
 
 /-! ### specification -/
 
